@@ -167,7 +167,7 @@ def find_witness(prop, pcfg, o, seed):
         if re.search(rp['for'], o.name):
             try:
                 from . import engines
-                w = {'driver': rp['driver'], 'bin': rp.get('bin', 'replay'), 'args': rp.get('args', {}), 'history': rp.get('history', '')}
+                w = {'driver': rp['driver'], 'bin': rp.get('bin', 'replay'), 'args': rp.get('args', {}), 'history': rp.get('history', ''), 'target': rp.get('target', 'replay-target')}
                 rr = engines.replay_witness(w)
                 w['replayed_on_real_code'] = rr
                 if rr.get('reproduced'):
@@ -317,7 +317,7 @@ def check_property(prop, tier, seed, verbose=False):
             if not (rp.get('on_undecided') or rp.get('thorough')): continue
             try:
                 from . import engines
-                w = {'driver': rp['driver'], 'bin': rp.get('bin', 'replay'), 'args': rp.get('args', {}), 'history': rp.get('history', '')}
+                w = {'driver': rp['driver'], 'bin': rp.get('bin', 'replay'), 'args': rp.get('args', {}), 'history': rp.get('history', ''), 'target': rp.get('target', 'replay-target')}
                 rr = engines.replay_witness(w)
                 last = (rr.get('output', '').strip().split('\n') or [''])[-1][:300]
                 cover['bounded'].append({'search': rp['driver'], 'args': rp.get('args', {}), 'result': last, 'hit': bool(rr.get('reproduced'))})
@@ -360,7 +360,7 @@ def check_property(prop, tier, seed, verbose=False):
             if not rp.get('on_undecided'): continue
             try:
                 from . import engines
-                w = {'driver': rp['driver'], 'bin': rp.get('bin', 'replay'), 'args': rp.get('args', {}), 'history': rp.get('history', '')}
+                w = {'driver': rp['driver'], 'bin': rp.get('bin', 'replay'), 'args': rp.get('args', {}), 'history': rp.get('history', ''), 'target': rp.get('target', 'replay-target')}
                 rr = engines.replay_witness(w)
                 w['replayed_on_real_code'] = rr
                 if rr.get('reproduced'):
